@@ -38,6 +38,15 @@ def has_division(t):
     return False
 
 
+def unit_algebra(qlanes):
+    """an algebra in which the quaternion whose lane atoms are given has unit length"""
+    from post import unit_relation
+    alg2 = nf.Algebra()
+    alg2.budget = 400000
+    unit_relation(alg2, qlanes)
+    return alg2, Spec(alg2)
+
+
 def run(ctx):
     configs = ctx.need(CONFIGS_QUICK if ctx.tier == 'quick' else CONFIGS_THOROUGH)
     ctx.trusted = TRUSTED_COMMON + ['reference mathematics rules/spec.py (Hamilton product, conjugate, sandwich product)']
@@ -124,6 +133,15 @@ def run(ctx):
                     if lanes is None or not S.eq(alg.nf(lanes[i]), exp[i]):
                         bad = 'component %s of q*v is not the vector part of q (v,0) q*: got %s' % ('xyz'[i], alg.nf(lanes[i])[0].show(alg.name, 10) if lanes else None)
                         break
+                if bad and lanes is not None:
+                    # the property speaks of unit quaternions only: any formula that agrees with the sandwich product modulo |q|^2 = 1 is the rotation
+                    alg2, S2 = unit_algebra(views[0].lanes)
+                    q2 = [alg2.nf(a) for a in views[0].lanes]
+                    v2 = [alg2.nf(a) for a in views[1].lanes[:3]]
+                    exp2 = S2.quat_rotate(q2, v2)
+                    if all(alg2.reduce(S2.sub(alg2.nf(lanes[i]), exp2[i])[0]).is_zero() for i in range(3)):
+                        bad = None
+                        note = 'equal to the sandwich product modulo |q|^2 = 1'
             elif kind == 'conj':
                 lanes = value_lanes(F, val, oty)
                 a = views[0].lanes
@@ -135,6 +153,13 @@ def run(ctx):
                         if lanes is None or lanes[i] is not alt:
                             bad = 'component %s of %s is %s, expected an exact %s' % ('xyzw'[i], mname, tm.show(lanes[i], 0, 4) if lanes else None, 'sign flip' if i < 3 else 'copy')
                             break
+                if bad and mname == 'inverse' and lanes is not None:
+                    # inverse is documented for unit quaternions: conjugate / |q|^2 (the general inverse) is the same function there
+                    alg2, S2 = unit_algebra(a)
+                    cj = [S2.neg(alg2.nf(a[0])), S2.neg(alg2.nf(a[1])), S2.neg(alg2.nf(a[2])), alg2.nf(a[3])]
+                    if all(alg2.reduce(S2.sub(alg2.nf(lanes[i]), cj[i])[0]).is_zero() for i in range(4)):
+                        bad = None
+                        note = 'equal to the conjugate modulo |q|^2 = 1'
             elif kind == 'lanewise':
                 lanes = value_lanes(F, val, oty)
                 other = views[1] if len(views) > 1 else None
